@@ -83,6 +83,11 @@ impl<'ctx> PriceRepositoryBuilder<'ctx> {
             // this must be an error returned, instead of log error.
             log::error!("price log should not contain the self-mention rate");
         }
+        if event.price_x.value.is_zero() || event.price_y.value.is_zero() {
+            // zero amount gives no information about the rate, and cannot be inverted.
+            log::warn!("price log should not contain zero amount, ignored");
+            return;
+        }
         self.insert_impl(source, event.date, event.price_x, event.price_y);
         self.insert_impl(source, event.date, event.price_y, event.price_x);
     }
